@@ -23,6 +23,8 @@ where
     Action: Send + Sync + Clone + 'static,
 {
     fn dispatch(&self, action: Action) -> Result<(), StoreError> {
+        #[cfg(rs_store_verif)]
+        crate::verif::point("dispatcher.tx");
         let sender = self.dispatch_tx.lock().unwrap();
         if let Some(tx) = sender.as_ref() {
             match tx.send(ActionOp::Action(action)) {
@@ -47,6 +49,10 @@ where
             Ok(pool) => {
                 if let Some(pool) = pool.as_ref() {
                     pool.execute(move || {
+                        #[cfg(rs_store_verif)]
+                        let _verif_leave = crate::verif::LeaveOnDrop("task.end");
+                        #[cfg(rs_store_verif)]
+                        crate::verif::point("task.start");
                         thunk(dispatcher);
                     })
                 }
@@ -62,6 +68,10 @@ where
             Ok(pool) => {
                 if let Some(pool) = pool.as_ref() {
                     pool.execute(move || {
+                        #[cfg(rs_store_verif)]
+                        let _verif_leave = crate::verif::LeaveOnDrop("task.end");
+                        #[cfg(rs_store_verif)]
+                        crate::verif::point("task.start");
                         task();
                     })
                 }
